@@ -45,11 +45,11 @@ def oracle(ck, scenarios, recs, what='CSS designates'):
 
 def run(tier, seed):
     ck = Check(PID, tier, seed)
-    ck.proof = lib.proof_step('props/C01.v', matchcheck.MATCH_CONE + ['FuelFacts.v'])
+    ck.proof = lib.proof_step('props/C01.v', matchcheck.MATCH_CONE + ['FuelFacts.v', 'AttrPat.v', 'RunFacts.v', 'AttrFacts.v'])
     ck.broken += ck.proof['broken']
     if not ck.proof['driver_ok']:
         ck.notes['driver'] = 'unavailable: model-side runs skipped, searching with the implementation-side oracles only'
-    n = 120 if tier == 'quick' else 2500
+    n = 220 if tier == 'quick' else 2500
     scs = campaign.build(ck.rnd, 'core', n, 8, depth=2, all_match=True, directed=3)
     scs += campaign.build(ck.rnd, 'core', n // 4, 4, depth=3, all_match=True)
     attrval.run(ck, ck.rnd, 300 if tier == 'quick' else 5000)
